@@ -2,7 +2,7 @@
    source text -> lines -> block pass -> inline pass -> clean-up -> HTML. *)
 From Coq Require Import String.
 From MdIt Require Import Prims Tables Escape NormRef Indent Mdurl LinkParse Ruler Tree Render Block Inline Core Dump Dispatch.
-From MdIt Require Import RenderProofs LookaheadProofs RangeProofs CodeProofs CodeSearchProofs LineProofs.
+From MdIt Require Import RenderProofs LookaheadProofs RangeProofs CodeProofs CodeSearchProofs LineProofs RefSafeProofs.
 From Coq Require Import Lia ZifyBool ZifyN ZifyNat.
 Local Open Scope string_scope.
 Local Open Scope list_scope.
@@ -349,3 +349,258 @@ Proof.
 Qed.
 
 End IndentedPipeline.
+
+(* ------------------------------------------------------------------ *)
+(* a paragraph that is one code span: the inline pass                     *)
+
+Lemma rev_repeatN m k : rev (repeatN m k) = repeatN m k.
+Proof.
+  induction k as [|k IH]; [reflexivity|]. cbn [repeatN rev]. rewrite IH. clear IH.
+  induction k as [|k IH]; [reflexivity|]. cbn [repeatN app]. f_equal. exact IH.
+Qed.
+
+Section SpanInline.
+Variable cfg : icfg.
+Variables (k : nat) (T : str) (p0 : spos) (mt : list (N * spos)) (nd : node) (refs : refmap) (rest : list N) (fuel : nat).
+
+Let closer := repeatN 96 k.
+Let src := closer ++ T ++ closer ++ [].
+
+Hypothesis Hk : (1 <= k)%nat.
+Hypothesis HT0 : match T with x :: _ => (x =? 96) = false | [] => False end.
+Hypothesis HTl : last_not 96 T.
+Hypothesis Hruns : iruns_lt 96 (N.of_nat k) T = true.
+Hypothesis Hutf : starts_clean T /\ no_cont_after 96 T = true.
+Hypothesis Hchain : ic_chain cfg = I_TEXT :: I_NEWLINE :: I_ESCAPE :: I_BACKTICK :: rest.
+Hypothesis Hstop : (if ic_text_punct cfg then punct_stop 96 else mem 96 (ic_text_stops cfg)) = true.
+Hypothesis Hnest : 0 < ic_maxnest cfg.
+Hypothesis Hnd : n_children nd = [].
+Hypothesis Hfuel : (0 < fuel)%nat.
+
+Lemma src_head : exists body, src = 96 :: body.
+Proof. unfold src, closer. rewrite (repeatN_head 96 k Hk). eexists. reflexivity. Qed.
+
+Lemma rev_src_head : exists body, rev src = 96 :: body.
+Proof.
+  unfold src. rewrite app_nil_r, !rev_app_distr. unfold closer. rewrite rev_repeatN, (repeatN_head 96 k Hk). eexists. reflexivity.
+Qed.
+
+Theorem span_inline_parse :
+  exists rng rng2,
+  inline_parse fuel cfg src ((0, p0) :: mt) nd refs =
+    inr (push_child nd (mk (KCodeInline 96 (N.of_nat k)) rng [mk (KText (span_text T)) rng2 []])).
+Proof.
+  unfold inline_parse. destruct rev_src_head as [rb Hrb]. destruct src_head as [sb Hsb].
+  rewrite Hrb. cbn [span]. change (is_sptab 96) with false. cbv iota. cbn [fst]. change (len []) with 0.
+  replace (len src - 0) with (len src) by lia.
+  assert (Hlen : 0 < len src) by (rewrite Hsb; unfold len; cbn [length]; lia).
+  replace (len src =? 0) with false by lia.
+  replace (fst (span is_sptab src)) with (@nil N) by (rewrite Hsb; reflexivity). change (len []) with 0.
+  cbv zeta.
+  set (st0 := IState src ((0, p0) :: mt) nd 0 (len src) [] 0 0 [] refs).
+  destruct fuel as [|f]; [lia|]. cbn [itokenize]. unfold Inline.tokenize_body.
+  change (i_max st0) with (len src). change (i_pos st0) with 0.
+  remember (S (N.to_nat (len src - 0))) as n1 eqn:En1. cbn [Inline.tok_loop].
+  change (i_pos st0) with 0. replace (0 <? len src) with true by lia. cbn [negb].
+  change (i_level st0) with 0. replace (0 <? ic_maxnest cfg) with true by lia.
+  (* the rules in front of the backtick rule decline at a backtick *)
+  assert (Hrest0 : irest st0 = inr src).
+  { unfold irest, isl. cbn [i_src i_pos i_max st0]. unfold slice.
+    assert (is_boundary src 0 = true) by reflexivity.
+    assert (is_boundary src (len src) = true).
+    { unfold is_boundary. replace (len src =? 0) with false by lia. unfold dropN, len. rewrite Nnat.Nat2N.id.
+      assert (forall l : str, drop (length l) l = []) by (induction l; auto). rewrite H0. lia. }
+    rewrite H, H0. replace ((0 <=? len src) && (len src <=? len src)) with true by lia. cbn [andb].
+    unfold sub. replace (len src - 0) with (len src) by lia. change (dropN 0 src) with src. unfold takeN, len. rewrite Nnat.Nat2N.id.
+    unfold ret. f_equal. apply take_all_len. lia. }
+  assert (Htext : rule_text cfg st0 false = inr (st0, None)).
+  { unfold rule_text. rewrite Hrest0. cbn [bind ret]. rewrite Hsb. cbn [span].
+    destruct (ic_text_punct cfg); rewrite Hstop; reflexivity. }
+  assert (Hnl : rule_newline st0 false = inr (st0, None)).
+  { unfold rule_newline. rewrite Hrest0. cbn [bind ret]. rewrite Hsb. reflexivity. }
+  assert (Hesc : rule_escape st0 false = inr (st0, None)).
+  { unfold rule_escape. rewrite Hrest0. cbn [bind ret]. rewrite Hsb. reflexivity. }
+  assert (A3 : i_src st0 = [] ++ (repeatN 96 k ++ T ++ repeatN 96 k ++ []) ++ []) by (cbn [app i_src st0]; rewrite app_nil_r; reflexivity).
+  assert (A5 : i_max st0 = len (@nil N) + len (repeatN 96 k ++ T ++ repeatN 96 k ++ [])) by (cbn [i_max st0]; unfold len at 2; cbn [length]; unfold src, closer; lia).
+  assert (A12 : match rev (trailing_text_get st0) with x :: _ => (x =? 96) = false | [] => True end).
+  { unfold trailing_text_get. cbn [i_node st0]. rewrite Hnd. exact I. }
+  destruct (code_span_verbatim st0 96 k [] T [] [] ltac:(lia) Hk A3 eq_refl A5 I HT0 HTl Hruns Hutf I A12 eq_refl
+              (ex_intro _ p0 (ex_intro _ mt eq_refl))) as (mv & rng & rng2 & Hcode).
+  rewrite Hchain. cbn [Inline.try_rules]. unfold run_rule.
+  change (I_TEXT =? I_TEXT) with true. cbv iota. rewrite Htext. cbn [bind ret snd fst].
+  change (I_NEWLINE =? I_TEXT) with false. change (I_NEWLINE =? I_NEWLINE) with true. cbv iota. rewrite Hnl. cbn [bind ret snd fst].
+  change (I_ESCAPE =? I_TEXT) with false. change (I_ESCAPE =? I_NEWLINE) with false. change (I_ESCAPE =? I_ESCAPE) with true. cbv iota.
+  rewrite Hesc. cbn [bind ret snd fst].
+  change (I_BACKTICK =? I_TEXT) with false. change (I_BACKTICK =? I_NEWLINE) with false. change (I_BACKTICK =? I_ESCAPE) with false.
+  change (I_BACKTICK =? I_BACKTICK) with true. cbv iota. rewrite Hcode. cbn [bind ret snd fst].
+  cbn [i_pos ipush iset_node set_bt iset_bt st0 iset_pos].
+  assert (Hend : 0 + (N.of_nat k + len T + N.of_nat k) = len src).
+  { unfold src, closer. rewrite !len_app. assert (Hr : len (repeatN 96 k) = N.of_nat k) by (unfold len; rewrite length_repeatN; reflexivity).
+    rewrite !Hr. change (len []) with 0. lia. }
+  rewrite Hend. replace (len src <=? len src) with true by lia.
+  cbn [bind ret i_node iset_pos ipush iset_node set_bt iset_bt].
+  exists rng, rng2. reflexivity.
+Qed.
+
+End SpanInline.
+
+(* ------------------------------------------------------------------ *)
+(* a document that is one line starting with a backtick: one paragraph    *)
+
+Section BacktickLine.
+Variable cfg : bcfg.
+Variables (body : str) (root : node) (refs : refmap) (fuel : nat).
+Let line := 96 :: body.
+
+Hypothesis Hchain : bc_chain cfg = [R_CODE; R_FENCE; R_QUOTE; R_HR; R_LIST; R_REF; R_HEADING; R_LHEADING; R_PARA].
+Hypothesis Hnest : 0 < bc_maxnest cfg.
+(* not an opening fence: fewer than three backticks, or a backtick in what follows them *)
+Hypothesis Hfence : (count_prefix 96 line <? 3) || mem 96 (dropN (count_prefix 96 line) line) = true.
+Hypothesis Hf : (0 < fuel)%nat.
+
+Theorem backtick_line_block_parse :
+  exists rng,
+  block_parse fuel cfg [line] root refs =
+    inr (push_child root (mk KParagraph rng [mk (KInlineRoot line [(0, SRel 0 0)]) None []]), refs).
+Proof.
+  destruct fuel as [|f]; [lia|]. unfold block_parse. cbv zeta. cbn [btokenize map length].
+  assert (Hml : mk_line line = LRec line 0 0) by reflexivity. rewrite Hml.
+  set (st0 := BState [LRec line 0 0] root 0 0 1 false None 0 refs).
+  assert (Hrec : line_rec st0 0 = inr (LRec line 0 0)) by reflexivity.
+  assert (Hind : line_indent st0 0 = inr 0%Z) by reflexivity.
+  assert (Hgl : get_line st0 0 = inr line).
+  { unfold get_line. rewrite Hrec. cbn [bind ret l_first l_end l_text]. unfold l_end. cbn [l_text]. replace (0 <=? len line) with true by lia. reflexivity. }
+  unfold Block.tokenize_body. change (b_max st0) with 1%nat. change (b_line st0) with 0%nat. change (S (1 - 0)) with 2%nat.
+  cbn [Block.tok_loop]. change (b_line st0) with 0%nat. change (b_max st0) with 1%nat. change (0 <? 1)%nat with true. cbn [negb].
+  assert (Hne : is_empty st0 0 = false).
+  { unfold is_empty. cbn [b_lines st0 nth_error l_first]. unfold l_end. cbn [l_text]. unfold len, line. cbn [length]. lia. }
+  assert (Hskip : skip_empty_lines st0 0 = 0%nat).
+  { unfold skip_empty_lines. change (b_max st0) with 1%nat. cbn [skip_empty_from Nat.sub]. rewrite Hne, andb_false_r. reflexivity. }
+  rewrite Hskip. change (set_line st0 0) with st0. change (b_max st0) with 1%nat. change (1 <=? 0)%nat with false.
+  rewrite Hind. cbn [bind ret]. change (0 <? 0)%Z with false. change (b_level st0) with 0. replace (bc_maxnest cfg <=? 0) with false by lia.
+  (* every rule in front of the paragraph rule declines *)
+  assert (Hcode : rule_code st0 = inr (st0, false)) by (unfold rule_code; change (b_line st0) with 0%nat; rewrite Hind; reflexivity).
+  assert (Hfo : fence_open st0 = inr None).
+  { unfold fence_open. change (b_line st0) with 0%nat. rewrite Hind, Hgl. cbn [bind ret]. change (4 <=? 0)%Z with false.
+    unfold line at 1. change ((96 =? 126) || (96 =? 96)) with true. cbv iota. fold line.
+    destruct (count_prefix 96 line <? 3) eqn:E3; [reflexivity|]. cbn [orb] in Hfence. change (96 =? 96) with true. cbn [andb]. rewrite Hfence. reflexivity. }
+  assert (Hfe : rule_fence cfg st0 = inr (st0, false)) by (unfold rule_fence; rewrite Hfo; reflexivity).
+  assert (Hq : rule_quote cfg (btokenize f cfg) st0 = inr (st0, false)).
+  { unfold rule_quote, quote_open. change (b_line st0) with 0%nat. rewrite Hind, Hgl. reflexivity. }
+  assert (Hhr : rule_hr st0 = inr (st0, false)).
+  { unfold rule_hr, hr_match. change (b_line st0) with 0%nat. rewrite Hind, Hgl. reflexivity. }
+  assert (Hli : rule_list cfg (btokenize f cfg) st0 = inr (st0, false)).
+  { unfold rule_list, list_open. cbn [andb]. change (b_line st0) with 0%nat. rewrite Hind, Hrec, Hgl. reflexivity. }
+  assert (Href : rule_reference cfg st0 = inr (st0, false)).
+  { unfold rule_reference. change (b_line st0) with 0%nat. rewrite Hind, Hgl. reflexivity. }
+  assert (Hhe : rule_heading st0 = inr (st0, false)).
+  { unfold rule_heading, heading_open. change (b_line st0) with 0%nat. rewrite Hind, Hgl. reflexivity. }
+  assert (Hlh : rule_lheading cfg st0 = inr (st0, false)).
+  { unfold rule_lheading. change (b_line st0) with 0%nat. rewrite Hind. cbn [bind ret]. change (4 <=? 0)%Z with false.
+    change (b_max st0) with 1%nat. cbn [lheading_scan]. change (b_max st0) with 1%nat. reflexivity. }
+  assert (Hpa : exists rng, rule_paragraph cfg st0 =
+            inr (push_node (set_line st0 1) (mk KParagraph rng [mk (KInlineRoot line [(0, SRel 0 0)]) None []]), true)).
+  { unfold rule_paragraph. cbv zeta. change (b_line st0) with 0%nat. change (b_max st0) with 1%nat. cbn [para_scan].
+    change (b_max st0) with 1%nat. change (Nat.leb 1 1) with true. cbn [orb bind ret].
+    unfold get_lines. change (0 <=? 1)%nat with true. change (1 - 0)%nat with 1%nat. cbn [get_lines_loop].
+    change (0 <? 1)%nat with true. cbn [negb]. rewrite Hrec. cbn [bind ret l_first l_end l_text l_indent]. unfold l_end. cbn [l_text].
+    replace (0 <=? len line) with true by lia. cbn [negb]. change (b_blk st0) with 0.
+    change (calc_right_whitespace (takeN 0 line) (0 - Z.of_N 0)) with (0, 0). cbv iota beta.
+    cbn [N.to_nat seq map repeatN app]. change (1 <? 1)%nat with false. cbn [orb app]. rewrite app_nil_r.
+    change (dropN 0 line) with line. change (len [] + 0) with 0.
+    unfold get_map. change (0 <=? 1 - 1)%nat with true. unfold pos_first, pos_end. change (1 - 1)%nat with 0%nat.
+    cbn [b_lines set_line st0 line_rec nth_error bind ret]. eexists. reflexivity. }
+  destruct Hpa as [rng Hpa]. exists rng.
+  rewrite Hchain. cbn [Block.try_rules]. unfold Block.rule_real.
+  repeat match goal with |- context [(?a =? ?b)] => let v := eval vm_compute in (a =? b) in change (a =? b) with v end.
+  cbv iota. rewrite Hcode. cbn [bind ret snd]. rewrite Hfe. cbn [bind ret snd]. rewrite Hq. cbn [bind ret snd].
+  rewrite Hhr. cbn [bind ret snd]. rewrite Hli. cbn [bind ret snd]. rewrite Href. cbn [bind ret snd].
+  rewrite Hhe. cbn [bind ret snd]. rewrite Hlh. cbn [bind ret snd]. rewrite Hpa. cbn [bind ret snd fst].
+  cbn [b_line b_max set_line push_node set_node set_tight st0]. change (0 <? 1)%nat with true. cbn [bind ret snd fst].
+  change (1 <? 1)%nat with false. cbn [andb Block.tok_loop b_line b_max set_line push_node set_node set_tight]. change (1 <? 1)%nat with false. cbn [negb].
+  cbn [bind ret b_node b_refs set_tight push_node set_node set_line st0]. reflexivity.
+Qed.
+
+End BacktickLine.
+
+(* ------------------------------------------------------------------ *)
+(* the whole pipeline for a document that is one code span               *)
+
+Lemma span_text_nonempty T : T <> [] -> exists c r, span_text T = c :: r.
+Proof.
+  intros H. unfold span_text. cbv zeta. set (content := map (fun b => if b =? 10 then 32 else b) T).
+  assert (Hne : content <> []) by (unfold content; destruct T; [congruence|discriminate]).
+  match goal with |- context [if ?c then _ else _] => destruct c eqn:E end.
+  - apply strip_len in E. unfold sub, takeN, dropN, len in *.
+    destruct content as [|c0 [|c1 [|c2 l2]]]; cbn [length] in *; try lia.
+    replace (N.to_nat (N.of_nat (S (S (S (length l2)))) - 1 - 1)) with (S (length l2)) by lia.
+    change (N.to_nat 1) with 1%nat. cbn [drop take]. do 2 eexists. reflexivity.
+  - destruct content as [|c0 l0]; [congruence|]. do 2 eexists. reflexivity.
+Qed.
+
+Lemma mem_app_r x (a b : str) : mem x b = true -> mem x (a ++ b) = true.
+Proof. intros H. induction a as [|y a IH]; [exact H|]. cbn [app mem]. rewrite IH. apply orb_true_r. Qed.
+
+Lemma render_root_para_code xhtml rm ra re pm pa pe k t cm tm :
+  pa = [] ->
+  render xhtml (Node KRoot rm ra re [Node KParagraph pm pa pe [mk (KCodeInline 96 k) cm [mk (KText t) tm []]]]) =
+  inr (replace_nul (bs "<p><code>" ++ escape_html t ++ bs "</code></p>" ++ [10]%N)).
+Proof.
+  intros ->. unfold render. cbn [render_events mk n_kind n_attrs n_children map bind ret app]. rewrite serialize_chunks. f_equal. f_equal.
+  cbn. rewrite <- ?app_assoc. reflexivity.
+Qed.
+
+Section SpanPipeline.
+Variables (k : nat) (T : str) (src : str).
+Hypothesis Hk : (1 <= k)%nat.
+Hypothesis HT0 : match T with x :: _ => (x =? 96) = false | [] => False end.
+Hypothesis HTl : last_not 96 T.
+Hypothesis Hruns : iruns_lt 96 (N.of_nat k) T = true.
+Hypothesis Hutf : starts_clean T /\ no_cont_after 96 T = true.
+(* the source is one line: k backticks, the payload, k backticks *)
+Hypothesis Hsrc : texts_of src = [repeatN 96 k ++ T ++ repeatN 96 k ++ []].
+
+Theorem span_document_html xhtml :
+  html_of_parse (default_fuel md_cmark) md_cmark xhtml src =
+  inr (replace_nul (bs "<p><code>" ++ escape_html (span_text T) ++ bs "</code></p>" ++ [10]%N)).
+Proof.
+  unfold html_of_parse, parse.
+  assert (Hic : snd (r_iter (md_inline md_cmark)) = inr [1; 2; 3; 4; 5; 6; 7; 8; 9; 10; 11]) by (vm_compute; reflexivity).
+  assert (Hti : md_text_impl md_cmark = None) by (vm_compute; reflexivity).
+  assert (Hcm : fst (choose_text_impl (md_charmap md_cmark)) = true) by (vm_compute; reflexivity).
+  pose proof cmark_core as Hc. pose proof cmark_block as Hb.
+  destruct (r_iter (md_core md_cmark)) as [rc cc]. destruct (r_iter (md_block md_cmark)) as [rb bc].
+  destruct (r_iter (md_inline md_cmark)) as [ri ich]. cbn [snd] in *. subst cc bc ich. cbn [bind ret].
+  rewrite cmark_prefix, cmark_nest, Hti.
+  cbn [fold_left]. unfold core_step at 3. cbn [bind ret]. change (C_BLOCK =? C_BLOCK) with true. cbv iota.
+  fold (texts_of src). rewrite Hsrc.
+  set (line := repeatN 96 k ++ T ++ repeatN 96 k ++ []).
+  assert (Hline : exists body, line = 96 :: body) by (unfold line; rewrite (repeatN_head 96 k Hk); eexists; reflexivity).
+  destruct Hline as [body Hline].
+  set (bcf := BCfg _ 100 (bs "language-")).
+  assert (Hfence : (count_prefix 96 (96 :: body) <? 3) || mem 96 (dropN (count_prefix 96 (96 :: body)) (96 :: body)) = true).
+  { rewrite <- Hline. unfold line.
+    assert (HT0' : match T ++ repeatN 96 k ++ [] with x :: _ => (x =? 96) = false | [] => True end) by (destruct T; [contradiction|exact HT0]).
+    rewrite (count_prefix_repeat 96 k _ HT0'), dropN_repeat_app.
+    destruct (N.of_nat k <? 3); [reflexivity|]. cbn [orb]. apply mem_app_r. rewrite (repeatN_head 96 k Hk). reflexivity. }
+  destruct (backtick_line_block_parse bcf body (mk KRoot None []) [] (default_fuel md_cmark) eq_refl ltac:(reflexivity) Hfence ltac:(vm_compute; lia)) as [prng Hbp].
+  rewrite Hline. rewrite Hbp. cbn [bind ret fst snd]. rewrite <- Hline.
+  unfold core_step at 2. cbn [bind ret]. change (C_INLINE =? C_BLOCK) with false. change (C_INLINE =? C_INLINE) with true. cbv iota.
+  cbn [set_children push_child mk n_children app].
+  set (icf := ICfg _ 100 _ _ _).
+  destruct (span_inline_parse icf k T (SRel 0 0) [] (Node (KInlineRoot [] []) None [] [] []) [] [5; 6; 7; 8; 9; 10; 11] (default_fuel md_cmark)
+              Hk HT0 HTl Hruns Hutf eq_refl) as (crng & trng & Hip).
+  - unfold icf. cbn [ic_text_punct]. rewrite Hcm. reflexivity.
+  - reflexivity.
+  - reflexivity.
+  - vm_compute. lia.
+  - cbn [inline_walk n_kind n_map n_attrs n_env bind ret mk]. fold line in Hip. rewrite Hip. cbn [bind ret n_children push_child set_children app].
+    unfold core_step. cbn [bind ret]. change (C_FRAGJOIN =? C_BLOCK) with false. change (C_FRAGJOIN =? C_INLINE) with false.
+    change (C_FRAGJOIN =? C_FRAGJOIN) with true. cbv iota.
+    assert (HTne : T <> []) by (destruct T; [contradiction|discriminate]).
+    destruct (span_text_nonempty T HTne) as (c0 & r0 & Hst). rewrite Hst.
+    cbn [fj_walk map fragments_join set_children n_children marker_to_text n_kind fj_collapse is_text text_nonempty app d_root mk].
+    rewrite <- Hst. apply render_root_para_code. reflexivity.
+Qed.
+
+End SpanPipeline.
